@@ -522,7 +522,7 @@ def run(ctx):
     drift = replayed = 0
     for kind in ("LO", "LR", "IN", "NS"):
         simcfg = "FramingSim_LOrepaired.cfg" if kind == "LO" and ctx.extra.get("lineonly_model") == "repaired" else "FramingSim_%s.cfg" % kind
-        for b in ctx.simulate("FramingSim", simcfg, num=ctx.pick(60, 1500), depth=13):
+        for b in ctx.simulate("FramingSim", simcfg, num=ctx.pick(12, 300), depth=13):
             datas = [h for h in b["hist"] if h["e"] == "data"]
             if not datas:
                 continue
